@@ -23,6 +23,14 @@ def pumps(ctx, size, full):
         lits.update(gen._lits(rm['pattern']))
     units = list(dict.fromkeys(gen.PUMP_UNITS + sorted(lits) + ["\\\\", "\\\\'", "''\\", "a ", " a", "1e", "e1", "$$", "a$", "*/*", "-- ", "\r\n", "][", "ASC ", " \t", "é", "À1"]))
     out = []
+    # regions opened again and again: the opener of every region kind (with and without a body) repeated, then its closer — and the closer repeated;
+    # a scan that restarts at every inner opener, whether it is a regex or a loop around one, multiplies here
+    REGIONS = [('/*', '*/'), ('/*+', '*/'), ("'", "'"), ('"', '"'), ('`', '`'), ('$$', '$$'), ('$a$', '$a$'), ('[', ']'), ('(', ')'), ('--', '\n'), ('# ', '\n'),
+               ('case ', ' end'), ('begin ', ' end'), ('if ', ' end if'), ("E'", "'"), ("'\\", "'")]
+    for o, c in REGIONS:
+        for body in ('', ' x ', 'x'):
+            n = max(1, size // max(1, len(o + body)))
+            out += [(o + body) * n + c, (o + body) * n, (o + body) * n + c * n, c * n, o + (body + c) * n]
     for p in PREFIXES:
         for u in units:
             sufs = SUFFIXES if full else [ctx.rng.choice(SUFFIXES), '']
